@@ -101,6 +101,11 @@ def gen_case(rng: random.Random, tier: str) -> dict:
             c.update({"target": rng.choice(["docx", "odt", "html", "epub"]), "depth": rng.choice([3, 9])})
         elif fam == "deep":
             c.update({"fmt": rng.choice(["html", "rtf", "docx", "json", "odt"]), "depth": rng.choice([200, 900, 3000, 20000])})
+            if c["fmt"] in ("html", "rtf", "json"):
+                # tag soup: the nesting never closes, closes with the wrong tags, or only closes
+                c["shape"] = rng.choice(["balanced", "balanced", "unclosed", "unmatched_end", "stray_end"])
+                if c["shape"] != "balanced":
+                    c["depth"] = rng.choice([900, 3000, 20000, 30000])
             if tier == "quick" and c["fmt"] == "docx" and rng.random() < 0.85:
                 c["depth"] = rng.choice([200, 900])  # the deep variants hit a listed finding and cost ~30 s of CPU each
         elif fam == "ratio_member":
@@ -113,9 +118,9 @@ def gen_case(rng: random.Random, tier: str) -> dict:
             c.update({"n": rng.choice([100, 5000, 30000])})
         return c
     if r < 0.70:
-        fam = rng.choice(["mbox_from", "mbox_from", "deep_html", "deep_rtf", "deep_json", "deep_odt", "deep_docx", "html_rows", "docx_paragraphs", "rtf_paragraphs",
+        fam = rng.choice(["mbox_from", "mbox_from", "deep_html", "deep_rtf", "deep_json", "deep_odt", "deep_docx", "soup_html", "html_rows", "docx_paragraphs", "rtf_paragraphs",
                           "odt_paragraphs", "csv_rows", "zip_members"])
-        base = {"mbox_from": [20000, 30000], "deep_html": [100, 200], "deep_rtf": [150, 400], "deep_json": [200, 230], "deep_odt": [100, 200], "deep_docx": [60, 100],
+        base = {"mbox_from": [20000, 30000], "deep_html": [100, 200], "deep_rtf": [150, 400], "deep_json": [200, 230], "deep_odt": [100, 200], "deep_docx": [60, 100], "soup_html": [2000, 4000],
                 "html_rows": [3000, 6000], "docx_paragraphs": [3000, 6000], "rtf_paragraphs": [3000, 6000], "odt_paragraphs": [3000, 6000], "csv_rows": [20000, 50000],
                 "zip_members": [400, 800]}[fam]
         return {"mode": "scaling", "family": fam, "n": rng.choice(base), "factor": 4}
@@ -211,12 +216,17 @@ def build_amp(c) -> tuple[bytes, str, int]:
     if fam == "deep":
         n = c["depth"]
         f = c["fmt"]
+        shape = c.get("shape", "balanced")
+        op = n if shape != "stray_end" else 0
+        cl = {"balanced": n, "unclosed": 0, "unmatched_end": n, "stray_end": n}[shape]
         if f == "html":
-            d = b"<html><body>" + b"<div>" * n + b"x" + b"</div>" * n + b"</body></html>"
+            end = b"</div>" if shape in ("balanced", "stray_end") else b"</span>"
+            d = b"<html><body>" + b"<div>" * op + b"x" + end * cl + b"</body></html>"
         elif f == "rtf":
-            d = b"{\\rtf1\\ansi " + b"{\\b " * n + b"x" + b"}" * n + b"}"
+            d = b"{\\rtf1\\ansi " + b"{\\b " * op + b"x" + b"}" * cl + b"}"
         elif f == "json":
-            d = b"[" * n + b"1" + b"]" * n
+            end = b"]" if shape in ("balanced", "stray_end") else b"}"
+            d = b"[" * op + b"1" + end * cl
         elif f == "docx":
             inner = "<w:tbl><w:tr><w:tc>" * min(n, 3000) + "<w:p><w:r><w:t>x</w:t></w:r></w:p>" + "</w:tc></w:tr></w:tbl>" * min(n, 3000)
             doc = f'<?xml version="1.0"?><w:document {corpus.W}><w:body>{inner}<w:sectPr/></w:body></w:document>'
@@ -320,6 +330,9 @@ def build_scaling(fam: str, n: int) -> tuple[bytes, str]:
     if fam == "mbox_from":
         one = b"From a@example.org Tue Jan  2 03:04:05 2024\n"
         return one * n + b"From: a@example.org\nSubject: s\nDate: Tue, 02 Jan 2024 03:04:05 +0000\n\nbody\n", "s.mbox"
+    if fam == "soup_html":
+        d, route, _u = build_amp({"family": "deep", "fmt": "html", "depth": n, "shape": "unmatched_end"})
+        return d, route
     if fam.startswith("deep_"):
         d, route, _u = build_amp({"family": "deep", "fmt": fam[5:], "depth": n})
         return d, route
@@ -455,7 +468,7 @@ def _family_sig(case) -> str:
         if f == "text_space":
             return f"text_space|{case['fmt']}"
         if f == "deep":
-            return f"deep|{case['fmt']}"
+            return f"deep|{case['fmt']}" + (f"|{case['shape']}" if case.get("shape", "balanced") != "balanced" else "")
         if f == "entities":
             return f"entities|{case['target']}"
         if f == "lying_7z":
